@@ -70,6 +70,10 @@ VARIABLES
             \* Clear) stay queued and are "stale" -- the cleaner must re-check the CURRENT entry when it pops one
   gidem,    \* ghost (reference): the last result saved per idempotency key since the last Clear, never swept
   nkc,      \* mapHub.nextKeyExpireCheck: the earliest key deadline the key sweeper knows of (0 = idle: the sweeper returns at once)
+  pl,       \* the key sweeper holds this channel's publish lock (pubLock) -- between the append of an expiry removal and the
+            \* return of the event-handler call for it (SplitDeliver); writers of the channel wait
+  hq,       \* expiry removals applied to state + stream whose event-handler call has not happened yet (SplitDeliver)
+  sub,      \* ghost: the key set of a subscriber that applies what reaches the event handler in arrival order
   pend,     \* expiredEvents of a sweep that finished phase 1: sequence of [key, exp]
   now,
   npub,     \* payload identities handed out (1..npub)
@@ -77,7 +81,7 @@ VARIABLES
   bc,       \* what the last step handed to the BrokerEventHandler: sequence of [off, key, rm, id]
   step      \* last operation: arguments, result, reference answers
 
-core == <<cf, chEx, chOrd, st, top, win, ep, epc, expAt, expQ, remAt, remQ, idem, iq, gidem, nkc, pend, now>>
+core == <<cf, chEx, chOrd, st, top, win, ep, epc, expAt, expQ, remAt, remQ, idem, iq, gidem, nkc, pl, hq, sub, pend, now>>
 vars == <<core, npub, nops, bc, step>>
 
 HasStream == cf.mode \in {"rec", "per"}
@@ -210,7 +214,7 @@ Init ==
   /\ cf \in Configs
   /\ chEx = FALSE /\ chOrd = FALSE /\ st = Empty /\ top = 0 /\ win = <<>> /\ ep = 0 /\ epc = 0
   /\ expAt = 0 /\ expQ = 0 /\ remAt = 0 /\ remQ = 0
-  /\ idem = Empty /\ iq = {} /\ gidem = Empty /\ nkc = 0 /\ pend = <<>>
+  /\ idem = Empty /\ iq = {} /\ gidem = Empty /\ nkc = 0 /\ pl = FALSE /\ hq = <<>> /\ sub = {} /\ pend = <<>>
   /\ now = 0 /\ npub = 0 /\ nops = 0 /\ bc = <<>>
   /\ step = [act |-> "Init"]
 
@@ -223,6 +227,14 @@ KeyQ    == IF KeyDeadlines = {} THEN 0 ELSE MinOf(KeyDeadlines)
 ExpDue  == ~Manual /\ expQ # 0 /\ now >= expQ
 RemDue  == ~Manual /\ remQ # 0 /\ now >= remQ
 KeyDue  == ~Manual /\ KeyQ # 0 /\ now >= KeyQ
+(* The event-handler call.  Publish, Remove and Clear take pubLock(ch) on entry and release it on return (defer): state change,
+   stream append and HandlePublication form one critical section, so their single step is exact.  Phase 2 of the key sweep does
+   the same per candidate -- pubLock -> hub lock -> delete + append -> hub unlock -> HandlePublication -> pubLock unlock.  With
+   SplitDeliver the handler call of an expiry removal is a step of its own (ExpireDeliver) and ExpiryHoldsPubLock says whether
+   the sweeper keeps pubLock across it (the code does; FALSE is the design that releases it before the call: the design check
+   then finds a later publication overtaking the removal at the handler).  Overridden per configuration. *)
+SplitDeliver == FALSE
+ExpiryHoldsPubLock == TRUE
 SweepSlack == 0      \* extra ticks a sweeper may be late (trace validation under load: 1)
 ExpMust == ~Manual /\ expQ # 0 /\ now >= expQ + 1 + SweepSlack
 RemMust == ~Manual /\ remQ # 0 /\ now >= remQ + 1 + SweepSlack
@@ -232,7 +244,7 @@ KeyMust == ~Manual /\ KeyQ # 0 /\ now >= KeyQ + 1 + SweepSlack
 Settled ==
   IF Manual THEN TRUE
   ELSE /\ ~ExpMust /\ ~RemMust /\ (pend = <<>> => ~KeyMust)
-       /\ Deterministic => (~ExpDue /\ ~RemDue /\ ~KeyDue /\ pend = <<>>)
+       /\ Deterministic => (~ExpDue /\ ~RemDue /\ ~KeyDue /\ pend = <<>> /\ hq = <<>>)
 
 \* Deterministic: a key sweep and a stream/channel sweep whose windows overlap could run in either
 \* order with different observable results -- such behaviours are not generated
@@ -279,7 +291,7 @@ SweepRemove ==      \* removeChannels: meta TTL; the channel object goes, state 
    nothing may overwrite that afterwards -- SweeperArmed. *)
 Candidates(bound) == {k \in DOMAIN st : st[k].exp # 0 /\ st[k].exp <= bound}
 ExpirePhase1 ==
-  /\ pend = <<>>
+  /\ pend = <<>> /\ hq = <<>>
   /\ LET bound == IF Deterministic /\ ~Manual THEN now - 1 ELSE now
          armed == nkc # 0 /\ nkc <= now
          c == IF armed THEN Candidates(bound) ELSE {}
@@ -299,24 +311,32 @@ ExpirePhase1 ==
 (* phase 2, one candidate (under pubLock -> hub lock): revalidate, then delete state + append the
    removal + dispatch atomically.  The stream TTL / meta TTL deadlines are NOT extended here. *)
 ExpirePhase2 ==
-  /\ pend # <<>>
+  /\ pend # <<>> /\ hq = <<>>            \* one sweeper goroutine: the handler call of the previous candidate has returned
   /\ LET e == Head(pend)
          k == e.key
          hit == chEx /\ k \in DOMAIN st /\ st[k].exp = e.exp /\ st[k].seq = e.seq
      IN /\ pend' = Tail(pend)
         /\ IF hit
              THEN /\ st' = Del(st, k)
-                  /\ IF HasStream
-                       THEN /\ top' = top + 1
-                            /\ win' = Trim(Append(win, [off |-> top + 1, key |-> k, rm |-> TRUE, id |-> 0]), cf.size)
-                            /\ bc' = <<[off |-> top + 1, key |-> k, rm |-> TRUE, id |-> 0]>>
-                       ELSE /\ UNCHANGED <<top, win>>
-                            /\ bc' = <<[off |-> top, key |-> k, rm |-> TRUE, id |-> 0]>>
-             ELSE /\ UNCHANGED <<st, top, win>> /\ bc' = <<>>
+                  /\ LET ent == [off |-> IF HasStream THEN top + 1 ELSE top, key |-> k, rm |-> TRUE, id |-> 0]
+                     IN /\ IF HasStream
+                             THEN top' = top + 1 /\ win' = Trim(Append(win, ent), cf.size)
+                             ELSE UNCHANGED <<top, win>>
+                        /\ IF SplitDeliver
+                             THEN bc' = <<>> /\ hq' = Append(hq, ent) /\ pl' = ExpiryHoldsPubLock
+                             ELSE bc' = <<ent>> /\ UNCHANGED <<hq, pl>>
+             ELSE /\ UNCHANGED <<st, top, win, hq, pl>> /\ bc' = <<>>
         /\ \* "entry was refreshed between Phase 1 and Phase 2 -- re-queue" (and re-arm)
            nkc' = IF ~hit /\ chEx /\ k \in DOMAIN st /\ st[k].exp > now THEN Arm(st[k].exp) ELSE nkc
         /\ step' = [act |-> "ExpirePhase2", key |-> k, removed |-> hit]
   /\ UNCHANGED <<cf, chEx, chOrd, ep, epc, expAt, expQ, remAt, remQ, idem, iq, gidem, now, npub, nops>>
+
+\* the sweeper's HandlePublication call for the removal it appended; afterwards pubLock (if held) is released
+ExpireDeliver ==
+  /\ hq # <<>>
+  /\ bc' = <<Head(hq)>> /\ hq' = Tail(hq) /\ pl' = FALSE
+  /\ UNCHANGED <<cf, chEx, chOrd, st, top, win, ep, epc, expAt, expQ, remAt, remQ, idem, iq, gidem, nkc, pend, now, npub, nops>>
+  /\ step' = [act |-> "ExpireDeliver", key |-> Head(hq).key]
 
 (* expireResultCache: the once-a-second cleaner of the idempotency results.  It pops every queue item whose time has
    come and deletes the key's entry only if the CURRENT entry is expired too (the item may stem from an older save).
@@ -334,7 +354,7 @@ SweepIdem ==
 
 Tick ==
   /\ now < MaxNow
-  /\ pend = <<>>
+  /\ pend = <<>> /\ hq = <<>>
   /\ ~ExpMust /\ ~RemMust /\ ~KeyMust
   /\ now' = now + 1
   /\ UNCHANGED <<cf, chEx, chOrd, st, top, win, ep, epc, expAt, expQ, remAt, remQ, idem, iq, gidem, nkc, pend, npub, nops>>
@@ -354,7 +374,7 @@ WouldCas(k, cas, e1) ==
   cas.has /\ (k \notin DOMAIN st \/ st[k].off # cas.off \/ e1 # cas.ep)
 
 Publish(k, km, cas, v, ve, ik, ittl, sc) ==
-  /\ Settled /\ npub < MaxPubs /\ nops < MaxOps
+  /\ Settled /\ ~pl /\ npub < MaxPubs /\ nops < MaxOps
   /\ npub' = npub + 1 /\ nops' = nops + 1
   /\ LET id   == npub + 1
          args == [key |-> k, km |-> km, cas |-> cas, v |-> v, ve |-> ve, ik |-> ik, ittl |-> ittl, sc |-> sc, id |-> id]
@@ -425,7 +445,7 @@ Publish(k, km, cas, v, ve, ik, ittl, sc) ==
 
 (* ---- Remove ---- *)
 RemoveKey(k, cas, ik, ittl) ==
-  /\ Settled /\ nops < MaxOps
+  /\ Settled /\ ~pl /\ nops < MaxOps
   /\ nops' = nops + 1
   /\ UNCHANGED <<cf, npub, nkc, pend, now, epc>>
   /\ LET args == [key |-> k, cas |-> cas, ik |-> ik, ittl |-> ittl]
@@ -464,7 +484,7 @@ RemoveKey(k, cas, ik, ittl) ==
 
 (* ---- Clear: the channel object, its TTL entries and the channel's result cache go; nothing is broadcast ---- *)
 Clear ==
-  /\ Settled /\ nops < MaxOps
+  /\ Settled /\ ~pl /\ nops < MaxOps
   /\ nops' = nops + 1
   /\ chEx' = FALSE /\ chOrd' = FALSE /\ st' = Empty /\ top' = 0 /\ win' = <<>> /\ ep' = 0
   /\ expAt' = 0 /\ expQ' = 0 /\ remAt' = 0 /\ remQ' = 0
@@ -559,9 +579,19 @@ ReadStateAny ==
 ReadStreamAny ==
   CanOp /\ \E since \in Sinces, limit \in Limits, reverse \in BOOLEAN : ReadStream(since, limit, reverse)
 
-Sweeps == (~Manual /\ (SweepExpire \/ SweepRemove \/ SweepIdem)) \/ ExpirePhase1 \/ ExpirePhase2
+Sweeps == (~Manual /\ (SweepExpire \/ SweepRemove \/ SweepIdem)) \/ ExpirePhase1 \/ ExpirePhase2 \/ ExpireDeliver
 
-Next == Tick \/ Sweeps \/ PublishAny \/ RemoveAny \/ Clear \/ ReadStateAny \/ ReadStreamAny
+\* frame of every step: only the sweep steps touch pl / hq; the ghost subscriber applies what the step handed to the handler
+\* (Clear and the channel's own expiry change the epoch: subscribers resynchronise from scratch)
+ApplyBc(sk, b, gone) ==
+  IF gone THEN {}
+  ELSE IF b = <<>> THEN sk
+  ELSE IF b[1].rm THEN sk \ {b[1].key} ELSE sk \cup {b[1].key}
+Frame ==
+  /\ IF step'.act \in {"ExpirePhase2", "ExpireDeliver"} THEN TRUE ELSE UNCHANGED <<pl, hq>>
+  /\ sub' = ApplyBc(sub, bc', (chEx /\ ~chEx') \/ step'.act = "Init")
+
+Next == (Tick \/ Sweeps \/ PublishAny \/ RemoveAny \/ Clear \/ ReadStateAny \/ ReadStreamAny) /\ Frame
 
 Spec == Init /\ [][Next]_vars
 
@@ -646,7 +676,7 @@ AppliedAppendsAndBroadcastsOnce == [][
 
 \* nothing is handed to the event handler except by an applied write or an expiry removal
 BroadcastOnlyByChange == [][
-  bc' # <<>> => (Applied \/ (step'.act = "ExpirePhase2" /\ step'.removed)) ]_vars
+  bc' # <<>> => (Applied \/ (step'.act = "ExpirePhase2" /\ step'.removed) \/ step'.act = "ExpireDeliver") ]_vars
 
 \* the stream: offsets dense, epoch stable while the channel object lives, fresh otherwise
 EpochStable == [][ (chEx /\ chEx') => (ep' = ep /\ top' >= top) ]_vars
@@ -684,12 +714,13 @@ ExpiryRemovesOnce == [][
      LET k == step'.key IN
      /\ k \in DOMAIN st /\ st[k].exp # 0 /\ st[k].exp <= now
      /\ DOMAIN st' = DOMAIN st \ {k} /\ \A x \in DOMAIN st' : st'[x] = st[x]
-     /\ IF HasStream
-          THEN /\ top' = top + 1
-               /\ win'[Len(win')] = [off |-> top + 1, key |-> k, rm |-> TRUE, id |-> 0]
-               /\ bc' = <<[off |-> top + 1, key |-> k, rm |-> TRUE, id |-> 0]>>
-          ELSE /\ top' = top /\ win' = win
-               /\ bc' = <<[off |-> top, key |-> k, rm |-> TRUE, id |-> 0]>> ]_vars
+     /\ LET ent == [off |-> IF HasStream THEN top + 1 ELSE top, key |-> k, rm |-> TRUE, id |-> 0]
+        IN /\ IF HasStream THEN top' = top + 1 /\ win'[Len(win')] = ent ELSE top' = top /\ win' = win
+           \* exactly one handler call for it: in this step, or (SplitDeliver) queued once for ExpireDeliver
+           /\ IF SplitDeliver THEN bc' = <<>> /\ hq' = Append(hq, ent) ELSE bc' = <<ent>> /\ hq' = hq ]_vars
+\* the queued removal is handed over exactly once, unchanged
+ExpiryDeliversQueued == [][
+  step'.act = "ExpireDeliver" => (hq # <<>> /\ bc' = <<Head(hq)>> /\ hq' = Tail(hq) /\ st' = st /\ top' = top /\ win' = win) ]_vars
 \* a key whose deadline lies in the future (refreshed by publish or keep-alive) survives every sweep step untouched
 RefreshedSurvive == [][
   step'.act \in {"ExpirePhase1", "ExpirePhase2"} =>
@@ -705,8 +736,10 @@ NeverLostNeverTwice == [][
   /\ \A k \in DOMAIN st \ DOMAIN st' :
         \/ step'.act \in {"Clear", "SweepRemove"}
         \/ /\ step'.act \in {"Remove", "ExpirePhase2"}
-           /\ Len(bc') = 1 /\ bc'[1].rm /\ bc'[1].key = k
-  /\ \A i \in 1..Len(bc') : bc'[i].rm => (bc'[i].key \in DOMAIN st /\ bc'[i].key \notin DOMAIN st') ]_vars
+           /\ \/ Len(bc') = 1 /\ bc'[1].rm /\ bc'[1].key = k
+              \/ SplitDeliver /\ step'.act = "ExpirePhase2" /\ Len(hq') = Len(hq) + 1 /\ hq'[Len(hq')].rm /\ hq'[Len(hq')].key = k
+  /\ step'.act # "ExpireDeliver" =>
+        \A i \in 1..Len(bc') : bc'[i].rm => (bc'[i].key \in DOMAIN st /\ bc'[i].key \notin DOMAIN st') ]_vars
 \* no live deadline is forgotten: the sweeper's next check is never later than a deadline of a key in the state (keys
 \* collected by the running sweep are in its candidate list) -- so every key whose TTL elapses is reached by a sweeper tick
 SweeperArmed ==
@@ -718,6 +751,19 @@ SweeperArmed ==
 OverdueKeysGone ==
   (~Manual /\ pend = <<>> /\ step.act \in {"Publish", "Remove", "ReadState", "ReadStream", "Clear"}) =>
      \A k \in DOMAIN st : st[k].exp = 0 \/ st[k].exp + 1 + SweepSlack >= now
+
+(* ---- the order at the event handler (C24, premise of C20 / C22) ---- *)
+\* events reach the event handler in the order the changes were applied to state and stream: nothing is handed over while an
+\* earlier change still waits for its call; on stream-backed channels that is stream-offset order
+HandlerInOffsetOrder == [][
+  bc' # <<>> =>
+     /\ (step'.act # "ExpireDeliver" => hq = <<>>)
+     /\ \A i \in 1..Len(hq') : HasStream => hq'[i].off > bc'[1].off ]_vars
+\* ... so a subscriber that applies the handler's sequence in arrival order holds exactly the keys of the state whenever no
+\* call is outstanding
+SubscriberConverges == (hq = <<>>) => (sub = DOMAIN st)
+\* a writer of the channel never runs while the sweeper is between its append and the return of the handler call
+WritersWaitForSweeper == [][ (pl /\ step'.act \in {"Publish", "Remove", "Clear"}) => FALSE ]_vars
 
 (* ---- C19, map half ---- *)
 VersionExact == [][
@@ -777,6 +823,8 @@ KeySeq3 == <<"a", "b", "c">>
 KeySeq4 == <<"a", "b", "c", "d">>
 SlackOne == 1
 TrueDef == TRUE
+FalseDef == FALSE
+ConfigsOrder == {Cfg("rec", FALSE, 1, 2, 3, 3), Cfg("eph", FALSE, 1, 0, 0, 0)}
 ScoresSim == {-1, 0, 1}
 ScoresPages == {-2, -1, 0, 1, 2}     \* the harness maps -2 / 2 to math.MinInt64 / math.MaxInt64
 ScoresPagesQuick == {-2, 0, 2}
